@@ -199,7 +199,7 @@ example : exportOne ⟨sess confedCtx none, samplePath ebgpSrc⟩ =
 
 /-- a full 255-AS leading sequence is not grown: the visible AS gets a segment of its own -/
 example : asPathPrepend 65100 [(2, List.replicate 255 65010)] = [(2, [65100]), (2, List.replicate 255 65010)] :=
-  prepend_full_segment_fresh _ _ _ (by simp)
+  prepend_full_segment_fresh _ _ _ List.length_replicate
 
 /-- non-client to non-client: suppressed; echo: suppressed -/
 example : exportOne ⟨sess ⟨.ibgp, 65001, .v4 167772417, none, 0⟩ (some 16909060), samplePath ibgpSrc⟩ = .suppressed := by
